@@ -4,9 +4,8 @@
    (function names are given at each definition).  The tree is the MVP of the Go code: one leaf.
    Go fixed-width arithmetic is written out with wrap16/wrap32/wrap64/sub32/sub64.
 
-   The model follows /repo with the two C14 repairs of notes/fixes applied:
+   The model follows /repo with the C14 repair of notes/fixes applied:
      c14-duplicate-key : InsertRecord refuses a key whose hash is already present
-     c14-tiny-node     : calculateMaxRecords returns 0 for nodeSize < 10 instead of wrapping
    No proofs in this file (Proofs/BT2.v, Proofs/Lookup3.v). *)
 From HV Require Import Base.Prelude Base.Crc32.
 
@@ -144,9 +143,8 @@ Definition new_bt (ns : N) : bt2 :=
 (* binary.LittleEndian.PutUint64(temp[:], heapID); copy(heapIDBytes[:], temp[:7]) *)
 Definition to7 (v : N) : bytes := firstn 7 (le 8 v).
 
-(* calculateMaxRecords (with c14-tiny-node): uint32 arithmetic *)
-Definition max_records (ns : N) : N :=
-  if ns <? 10 then 0 else sub32 ns 10 / 11.
+(* calculateMaxRecords: available := bt.nodeSize - overhead (uint32, wraps below 10); available / 11 *)
+Definition max_records (ns : N) : N := sub32 ns 10 / 11.
 
 (* insertRecordSorted: position of the first record with NameHash >= new hash, default len *)
 Fixpoint find_insert_pos (rs : list rec) (h : N) (i : nat) : nat :=
